@@ -2,7 +2,7 @@
    This file: the CURRENT transaction metadata and the history tables (table level). The point-in-time read
    queries (which table/column/feature they test) are exercised by the read tie; see C17 notes in DESIGN.md. *)
 From Coq Require Import List ZArith String Bool Lia.
-From LV Require Import Base.Util Ledger.Types Ledger.Core Ledger.Invariants Ledger.ReplayProofs Ledger.Reads Ledger.IkProofs Ledger.HistProofs.
+From LV Require Import Base.Util Ledger.Types Ledger.Core Ledger.Invariants Ledger.ReplayProofs Ledger.Reads Ledger.IkProofs Ledger.HistProofs Ledger.AHistProofs.
 Import ListNotations.
 Open Scope Z_scope.
 
@@ -71,6 +71,24 @@ Theorem C17_tx_metadata_as_of : forall f h1 h2 t x,
   thist_at (s_thist (run f (h1 ++ h2))) (t_id x) t = t_meta x.
 Proof. exact tx_metadata_as_of. Qed.
 Print Assumptions C17_tx_metadata_as_of.
+
+(* The same for ACCOUNTS with ACCOUNT_METADATA_HISTORY = SYNC: metadata written by transactions (account metadata of the request,
+   script set_account_meta), by explicit saves and deletes; [ahist_at] is what the point-in-time account read returns *)
+Theorem C17_account_metadata_as_of : forall f h1 h2 t x,
+  f_acc_hist f = true -> Forall (fun no => fst no <= t) h1 -> Forall (fun no => t < fst no) h2 ->
+  In x (s_accounts (run f h1)) ->
+  ahist_at (s_ahist (run f (h1 ++ h2))) (a_addr x) t = a_meta x.
+Proof. exact account_metadata_as_of. Qed.
+Print Assumptions C17_account_metadata_as_of.
+
+Theorem C17_pit_account_read_uses_history : forall f s t r, In r (read_accounts f s (Some t)) ->
+  exists x, In x (s_accounts s) /\ ar_addr r = a_addr x /\ a_first x <= t /\
+            ar_meta r = if f_acc_hist f then ahist_at (s_ahist s) (a_addr x) t else a_meta x.
+Proof.
+  intros f s t r H. unfold read_accounts in H. apply in_map_iff in H. destruct H as (x & <- & Hx).
+  apply filter_In in Hx. destruct Hx as [Hx Hp]. exists x. cbn [ar_addr ar_meta le_opt] in *. repeat split; [exact Hx | lia].
+Qed.
+Print Assumptions C17_pit_account_read_uses_history.
 
 (* ... and that is what the point-in-time listing shows for that transaction; with the feature DISABLED it shows the current metadata *)
 Theorem C17_pit_read_uses_history : forall f s t r, In r (read_transactions f s (Some t)) ->
